@@ -3,6 +3,7 @@ package chk
 import (
 	"fmt"
 	"go/token"
+	"golang.org/x/text/unicode/norm"
 	"sort"
 	"strings"
 
@@ -111,6 +112,45 @@ func ruleSTLCharTables(p *Prog, l *Ledger, tier string) {
 			l.Prove(rule, "", key, "", fmt.Sprintf("%q passes through as %#x and is read back as itself", ch, k))
 		} else {
 			l.Fail(rule, "", key, "", fmt.Sprintf("the writer emits %q as its own code %#x (no table entry), but the reader decodes %#x as %q: the character does not survive a write/read cycle", ch, k, k, got))
+		}
+	}
+	// (iv) the writer normalises the text before looking characters up (encodeTextSTL): a table
+	// row whose character is not a fixed point of that normal form can never match, and the
+	// character is written as whatever its decomposition maps to. The form is read from the call in
+	// /repo and applied with the same x/text version /repo builds with.
+	if enc := anchor(p, l, rule, "encodeTextSTL"); enc != nil {
+		form, pos, found := int64(-1), "", false
+		for _, b := range enc.Blocks {
+			for _, ins := range b.Instrs {
+				c, ok := ins.(*ssa.Call)
+				if !ok {
+					continue
+				}
+				sc := c.Call.StaticCallee()
+				if sc == nil || sc.Pkg == nil || sc.Pkg.Pkg.Path() != "golang.org/x/text/unicode/norm" || len(c.Call.Args) == 0 {
+					continue
+				}
+				if f, ok := constInt(c.Call.Args[0]); ok && typeStr(c.Call.Args[0].Type()) == "Form" {
+					form, pos, found = f, p.Pos(c.Pos()), true
+				}
+			}
+		}
+		key := rule + "|normal-form"
+		if !found {
+			l.Add(Ob{Rule: rule, Key: key, Status: Info, Why: "encodeTextSTL applies no unicode normal form with a constant receiver: every table row can match as it is"})
+		} else {
+			names := map[int64]string{0: "NFC", 1: "NFD", 2: "NFKC", 3: "NFKD"}
+			var lost []string
+			for _, r := range writer {
+				if got := norm.Form(form).String(r.text); got != r.text {
+					lost = append(lost, fmt.Sprintf("%q (U+%04X, code %#x) becomes %q", r.text, []rune(r.text)[0], r.code, got))
+				}
+			}
+			if len(lost) == 0 {
+				l.Prove(rule, "encodeTextSTL", key, pos, fmt.Sprintf("all %d characters of the writer tables are fixed points of %s, the normal form applied before the lookup", len(writer), names[form]))
+			} else {
+				l.Fail(rule, "encodeTextSTL", key, pos, fmt.Sprintf("encodeTextSTL normalises the text to %s before looking characters up, but %d characters of the writer tables are not fixed points of that form, so their rows can never match and they are written as something else: %s", names[form], len(lost), strings.Join(lost, "; ")))
+			}
 		}
 	}
 	l.Min(rule, n, 140)
